@@ -22,7 +22,7 @@ class Prop(PropBase):
     lean_targets = ["PbProps.C06"]
     theorems = ["Pb.C06." + t for t in ("C06_law", "C06_antisym", "C06_additive", "C06_monotone", "C06_round",
                                         "C06_ends_bound", "C06_incoh", "C06_incoh_empty", "C06_source_formula")]
-    trusted_base = ["PbModel/Disp.lean (hand model) + Gen/Disp.lean (translator output)",
+    trusted_base = ["pbverif/extract.py: symbolic evaluation of the method bodies into PbModel/Gen/Disp.lean (trusted to render the source expressions faithfully; tied to the hand model by the C06_source_* theorem)", "PbModel/Disp.lean (hand model) + Gen/Disp.lean (translator output)",
                     "astropy Quantity arithmetic evaluating the law (validated, not proved)"]
     assumptions = ["channel labels positive (the law is singular at 0)"]
     rule = ("law: DM of both signs over 1e-3..1e3, frequency pairs in Hz..GHz units incl. f==r; incoh: 5 radio classes, "
